@@ -259,7 +259,11 @@ fn convert_hgignore_regexp(regexp: &str, file_path: &Path) -> Result<Regex, Erro
             pattern = pattern.add("/");
         }
 
-        pattern = pattern.add(&regexp.trim_start_matches("^"));
+        // as one group: an alternation at the top of the expression (`foo|bar`) stays below the prefix
+        pattern = pattern
+            .add("(?:")
+            .add(&regexp.trim_start_matches("^"))
+            .add(")");
 
         Regex::new(&pattern)
     }
